@@ -17,6 +17,7 @@ def build(repo, findings):
     u.add(ex.item(r'^enum ExpansionPiece ', 'ExpansionPiece').r1(keep_derive=()).r11())
     u.add(ex.item(r'^struct WordField\(', 'WordField').r1(keep_derive=()).r11().resub(r'struct WordField\(Vec', 'struct WordField(pub Vec', 'R11', 'tuple field made visible'))
     u.add(ex.item(r'^struct Expansion ', 'Expansion').r1(keep_derive=()).r11().pub_fields())
+    u.prelude('std/utf8.rs')
     u.prelude('wordpiece/spec.rs')
     f = ex.item(r'^impl Default for Expansion ', 'impl Default for Expansion').r1()
     f.sig('default', ret='r', ensures=[C('aux default-expansion', 'r.fields@.len() == 0 && !r.from_array && !r.undefined')], no_canary=True)
@@ -50,6 +51,28 @@ def build(repo, findings):
     g.sig(fn, ret='res', ensures=[
         C('C05 tilde-result-is-never-split-or-globbed', 'match tilde_spec(tilde_expr) { Ok(v) => res is Ok && single_unsplittable(res->Ok_0, v), Err(e) => res is Err }'),
     ])
+    u.add(g)
+    # ---- the command-substitution arm
+    fn = 'command_substitution_arm'
+    g = ex.block_slice(r'^\s*\| brush_parser::word::WordPiece::CommandSubstitution\((\w+)\) => \{$', 'fn command_substitution_arm(self_: &mut WordExpander, s: String) -> %s' % RET, fn, within_fn='expand_word_piece', wrap=('Ok({', '})'))
+    g.r1().r3()
+    g.resub(r'\bself\b', 'self_', 'R6', 'slice wrapper: self -> self_', count=None)
+    g.resub(r'commands::invoke_command_in_subshell_and_get_output\(self_\.shell, self_\.params, (\w+)\)', r'invoke_command_in_subshell_and_get_output(self_, \1)', 'R14', 'subshell launch -> stub with an uninterpreted output', count=None)
+    g.resub(r'\bcmd_output\.contains\((\'\\0\')\)', r'string_contains_char(&cmd_output, \1)', 'R14', 'String::contains(char) -> stub', count=None)
+    g.resub(r'writeln!\(\s*self_\.params\.stderr\(self_\.shell\),\s*"warning: command substitution: ignored null byte in input",?\s*\)\?', 'warn_ignored_nul(self_)?', 'R14', 'warning to stderr -> stub with the same error path', count=None)
+    g.resub(r'\bcmd_output\.retain\(\|c\| c != \'\\0\'\)', 'string_retain_not_nul(&mut cmd_output)', 'R14', 'String::retain(closure) -> stub', count=None)
+    g.resub(r"\bcmd_output\.trim_end_matches\('(\\?.)'\)\.len\(\)", r"trimmed_len_of(&cmd_output, &['\1'])", 'R19', "trim_end_matches(char).len() -> stub (byte length without the trailing run)", count=None)
+    g.resub(r"\bcmd_output\.trim_end_matches\((\[[^\]]*\])\)\.len\(\)", r"trimmed_len_of(&cmd_output, &\1)", 'R19', "trim_end_matches([chars]).len() -> stub", count=None)
+    g.resub(r'\bcmd_output\.truncate\((\w+)\)', r'string_truncate(&mut cmd_output, \1)', 'R19', 'String::truncate -> stub with the char-boundary precondition', count=None)
+    g.resub(r'!self_\.disable_command_substitutions', '!self_.disable_command_substitutions', 'R0', 'no-op', count=None)
+    g.sig(fn, ret='res', ensures=[
+        C('C04,C05 substitution-result-is-the-output-minus-trailing-newlines', '''!old(self_).disable_command_substitutions ==> match subst_output_spec(s@) {
+    Ok(v) => res is Ok ==> single_splittable(res->Ok_0, strip_trailing(without_nul(v), seq!['\\n'])),   // (Err: the warning about a NUL could not be written)
+    Err(e) => res is Err,
+}'''),
+    ])
+    g.before(r'^\s*let trimmed_len = ', 'proof { if subst_output_spec(s@) is Ok { let v = subst_output_spec(s@)->Ok_0; if !v.contains(\'\\0\') { lemma_without_nul_id(v); } } lemma_boundary_unique_all(cmd_output@); }', fn_name=fn, optional=True)
+    g.after_line(r'^\s*let trimmed_len = ', "proof { assert(['\\n']@ =~= seq!['\\n']); }", fn_name=fn, optional=True)
     u.add(g)
     u.raw(FOOTER)
     u.assume('external_body', 'expand_tilde_expression is a stub with an uninterpreted result; TildeExpr, Error opaque; vx_owned (R17)')
